@@ -366,6 +366,8 @@ def persist_callers(cx):
                 def zero(v_):
                     if v_ == ("int", 0) or (v_[0] == "tuple" and bool(v_[1]) and all(zero(y) for y in v_[1])):
                         return True
+                    if v_ == ("enum", "core::option::Option", "None"):
+                        return True   # an `Option` accumulator: "nothing gathered"
                     # `*point = Point { snap_index: i, last_entry: (0, 0) }`: the fields the acknowledgement reads are zeroed
                     if v_[0] == "adt" and v_[2]:
                         d_ = dict(v_[2])
